@@ -363,6 +363,20 @@ def run_e2e(chk, UWG, idx, cfg):
     with open(out, 'r', newline='') as f:
         lines = f.read().split('\n')
     ans = 'ok ' + enc('\n'.join(lines[:8] + lines[8 + lo:8 + hi]) + '\n')
+    if msg is None:
+        # the same object again with another window: the second file must again differ from the
+        # rural file in its own window only (nothing of the first run may leak into it)
+        mo2, dy2 = (mo % 12) + 1, 10
+        m.month, m.day, m.nday = mo2, dy2, 1
+        with contextlib.redirect_stdout(io.StringIO()):
+            m.generate()
+            m.simulate()
+            vals2 = [(u.canTemp - 273.15, u.Tdp, u.canRHum, w.wind) for u, w in zip(m.UCMData, m.WeatherData)]
+            s2 = m.simTime.timeInitial - 8
+            m.write_epw()
+        msg2 = oracle_file(rural, m.new_epw_path, s2, vals2, prec, h)
+        if msg2:
+            msg = 'second run on the same object (window %d/%d after %d/%d): %s' % (mo2, dy2, mo, dy, msg2)
     case = {'replay_kind': 'e2e', 'epw_path': epw, 'uwg_path': uwgf, 'epw': os.path.basename(epw), 'month': mo, 'day': dy, 'nday': nd, 'dtsim': dt,
             'precision': prec, 'window_start_row': s}
     return line, ans, msg, case
